@@ -1,5 +1,6 @@
 import RockitModel.Model.Initial
 import RockitModel.Model.Der
+import RockitModel.Model.Inf
 /-!
 Line-protocol driver: reads an OCP description, a decision point and `run …` requests from
 stdin, evaluates the model over `Rat`, prints canonical answers.
@@ -144,7 +145,10 @@ def runCmd (b : B) (what : List String) : Except String (List String) := do
   match what with
   | ["nlp"] =>
       let n := c.nlp
-      return [s!"f {showRat n.f}"] ++ n.rows.map (fun r => "row " ++ r.tag ++ " | " ++ showRats r.atoms) ++ ["end"]
+      match c.infRows with
+      | none => return ["reject inf", "end"]
+      | some ir =>
+      return [s!"f {showRat n.f}"] ++ (n.rows ++ ir).map (fun r => "row " ++ r.tag ++ " | " ++ showRats r.atoms) ++ ["end"]
   | ["obj"] => return [s!"f {showRat c.objective}", "end"]
   | ["grid"] =>
       return [s!"tau {showRats ((List.range (c.N+1)).map c.tau)}"] ++
@@ -234,6 +238,11 @@ def stepLine (b : B) (line : String) : Except String (B × List String) := do
       let e ← parseExprAll e
       let o ← (match o.toInt? with | some o => pure o | none => throw "bad offset")
       return ({ b with cons := b.cons.modify (b.cons.size - 1) (fun k => { k with offs := k.offs ++ [(e, o)] }) }, [])
+  | ["iop", "der", i] =>
+      return ({ b with cons := b.cons.modify (b.cons.size - 1) (fun k => { k with infOps := k.infOps ++ [InfOp.der i.toNat!] }) }, [])
+  | "iop" :: "inert" :: e =>
+      let e ← parseExprAll e
+      return ({ b with cons := b.cons.modify (b.cons.size - 1) (fun k => { k with infOps := k.infOps ++ [InfOp.inert e] }) }, [])
   | "ph" :: kind :: rest =>
       let (kind, rest) ← (match kind, rest with
         | "at_t0", r => pure (PhKind.atT0, r) | "at_tf", r => pure (.atTf, r) | "sum", r => pure (.sum, r)
